@@ -34,12 +34,18 @@ class SimReactor(object):
         self.events = 0
         self._hash = hashlib.sha256()
         self.errors = []          # unhandled exceptions raised by timed calls
+        self.logged_errors = []   # failures handed to twisted.python.log.err (collected by boot)
         self.trace = None         # optional list receiving (seq, t, label)
         self.node_skew = {}       # node name -> seconds added to seconds() while that node runs
         self.current_node = None
         self._triggers = []
         self.labeler = None
         self.after_event = None   # optional invariant hook, called after every event
+        self.running = True
+        # foolscap's eventual-send queue is a process global that remembers its pending timer
+        _ev = sys.modules.get("foolscap.eventual")
+        if _ev is not None:
+            _ev._theSimpleQueue.__init__()
 
     # -- IReactorTime --------------------------------------------------------
     def seconds(self):
@@ -59,10 +65,19 @@ class SimReactor(object):
         self._push(dc)
         return dc
 
+    def callLaterKeyed(self, delay, key, f, *args, **kw):
+        """callLater whose order among events due at the same instant is decided by `key`
+        (a stable, label-derived integer) instead of by the order the calls were issued in."""
+        dc = DelayedCall(self._now + delay, f, args, kw, self._cancel, self._reset,
+                         seconds=self.true_seconds)
+        dc._sim_key = key
+        self._push(dc)
+        return dc
+
     def _push(self, dc):
         self._seq += 1
         dc._sim_seq = self._seq
-        heapq.heappush(self._heap, (dc.time, self._seq, dc))
+        heapq.heappush(self._heap, (dc.time, getattr(dc, "_sim_key", 0), self._seq, dc))
 
     def _cancel(self, dc):
         dc._sim_seq = -1
@@ -71,7 +86,7 @@ class SimReactor(object):
         self._push(dc)
 
     def getDelayedCalls(self):
-        return [dc for (t, s, dc) in self._heap
+        return [dc for (t, k, s, dc) in self._heap
                 if dc._sim_seq == s and not dc.cancelled and not dc.called]
 
     # -- IReactorCore / FromThreads (minimal) ---------------------------------
@@ -125,14 +140,14 @@ class SimReactor(object):
         return name
 
     def pending(self):
-        for (t, s, dc) in self._heap:
+        for (t, k, s, dc) in self._heap:
             if dc._sim_seq == s and not dc.cancelled and not dc.called:
                 return True
         return False
 
     def next_time(self):
         while self._heap:
-            t, s, dc = self._heap[0]
+            t, k, s, dc = self._heap[0]
             if dc._sim_seq != s or dc.cancelled or dc.called:
                 heapq.heappop(self._heap)
                 continue
@@ -148,7 +163,7 @@ class SimReactor(object):
     def step(self):
         """Run one event; return False at quiescence."""
         while self._heap:
-            t, s, dc = heapq.heappop(self._heap)
+            t, k, s, dc = heapq.heappop(self._heap)
             if dc._sim_seq != s or dc.cancelled or dc.called:
                 continue
             if dc.delayed_time > 0.0:
@@ -208,7 +223,7 @@ class SimReactor(object):
 
     def drop_pending(self):
         """A simulated process died: its timers die with it."""
-        for (t, s, dc) in self._heap:
+        for (t, k, s, dc) in self._heap:
             dc._sim_seq = -1
         self._heap = []
 
